@@ -24,21 +24,21 @@ Record re_site : Type := mkReSite {
 
 Definition regex_sites : list re_site := [
   (* interp/interp.go:43 *)
-  mkReSite "interp" "interp.go" "(package variable)" "MustCompile" "`^([_a-zA-Z][_a-zA-Z0-9]*)=(.*)`"
+  mkReSite "interp" "interp.go" "(package variable)" "MustCompile" "`(?s)^([_a-zA-Z][_a-zA-Z0-9]*)=(.*)`"
     (TPkgVar "varRegex") false [] false;
-  (* interp/interp.go:872 *)
+  (* interp/interp.go:893 *)
   mkReSite "interp" "interp.go" "setSpecial" "Compile" "compiler.AddRegexFlags(p.fieldSep)"
     (TLocal "re") true [] true;
-  (* interp/interp.go:898 *)
+  (* interp/interp.go:919 *)
   mkReSite "interp" "interp.go" "setSpecial" "MustCompile" "sep"
     (TField "p.recordSepRegex") true [] true;
-  (* interp/interp.go:903 *)
+  (* interp/interp.go:924 *)
   mkReSite "interp" "interp.go" "setSpecial" "MustCompile" "sep"
     (TField "p.recordSepRegex") true [] true;
-  (* interp/interp.go:906 *)
+  (* interp/interp.go:927 *)
   mkReSite "interp" "interp.go" "setSpecial" "Compile" "compiler.AddRegexFlags(p.recordSep)"
     (TLocal "re") true [] true;
-  (* interp/interp.go:1067 *)
+  (* interp/interp.go:1088 *)
   mkReSite "interp" "interp.go" "compileRegex" "Compile" "compiler.AddRegexFlags(regex)"
     (TLocal "re") true [] true;
   (* internal/compiler/compiler.go:1110 *)
